@@ -826,3 +826,129 @@ impl Check for C07Static {
 fn is_directive_or_module_directive(s: &Value) -> bool {
     Eraser::is_directive(s)
 }
+
+// ------------------------------------------------------------------------------------------ C05 (defaults, prologue)
+
+pub struct C05Defaults;
+
+impl Check for C05Defaults {
+    fn id(&self) -> &'static str {
+        "C05"
+    }
+    fn max_tape(&self) -> usize {
+        120
+    }
+    fn decode(&self, tape: &[u8], _stream: usize) -> Value {
+        let mut t = Tape::new(tape);
+        let cfg = gen_cfg(&mut t, &CfgOpts { fixed_prefix: false, rich: false });
+        let mut j = cfg.json.clone();
+        // some undecodable configurations: they fall back to the default configuration as a whole
+        match t.weighted(&[12, 1, 1, 1]) {
+            1 => j["csiMethods"] = json!("not a list"),
+            2 => j["csiMethods"] = json!([{"dst": "noSource"}]),
+            3 => j["chainSourceMap"] = json!("yes"),
+            _ => {}
+        }
+        json!({"cfg": j})
+    }
+    fn rule(&self) -> String {
+        "configuration objects with every combination of omitted options (and undecodable ones), converted through the guarded accessor to the internal \
+         configuration; oracle = documented defaults: no chaining, no comments, literals on, replacement name = source name, telemetry INFORMATION (also for unknown \
+         strings, any case), prefix = six random lowercase letters differing between rewriters"
+            .into()
+    }
+    fn eval(&self, case: &Value, _ctx: &mut Ctx) -> Outcome {
+        let j = &case["cfg"];
+        let mut want = info_from_json(j);
+        if j.get("chainSourceMap").map(|v| !v.is_boolean() && !v.is_null()).unwrap_or(false) {
+            want = info_from_json(&json!("invalid"));
+        }
+        let c1 = rw::make_config(j);
+        let c2 = rw::make_config(j);
+        let mut classes = vec![];
+        if c1.chain_source_map != want.chain {
+            return Outcome::fail("default-chain", format!("chain_source_map = {} for {}", c1.chain_source_map, j));
+        }
+        if c1.print_comments != want.comments {
+            return Outcome::fail("default-comments", format!("print_comments = {} for {}", c1.print_comments, j));
+        }
+        if c1.literals != want.literals {
+            return Outcome::fail("default-literals", format!("literals = {} for {}", c1.literals, j));
+        }
+        let verb = format!("{:?}", c1.verbosity).to_uppercase();
+        if verb != want.verbosity {
+            return Outcome::fail("default-verbosity", format!("verbosity = {verb}, expected {} for {}", want.verbosity, j));
+        }
+        match &want.prefix {
+            Some(p) => {
+                if &c1.local_var_prefix != p {
+                    return Outcome::fail("prefix", format!("prefix {:?} instead of the configured {:?}", c1.local_var_prefix, p));
+                }
+                classes.push("prefix:given".to_string());
+            }
+            None => {
+                let ok = |s: &str| s.len() == 6 && s.bytes().all(|b| b.is_ascii_lowercase());
+                if !ok(&c1.local_var_prefix) || !ok(&c2.local_var_prefix) {
+                    return Outcome::fail("default-prefix", format!("default prefix {:?} is not six lowercase letters", c1.local_var_prefix));
+                }
+                // two rewriters with the same default prefix: 26^-6, counted, not alarmed
+                if c1.local_var_prefix == c2.local_var_prefix {
+                    classes.push("prefix:collision".to_string());
+                } else {
+                    classes.push("prefix:random-distinct".to_string());
+                }
+            }
+        }
+        // replacement names
+        let got: Vec<(String, String)> = c1.csi_methods.methods.iter().map(|m| (m.src.clone(), m.dst.clone())).collect();
+        let dsts = iast_mirror::verif_hooks::verif_access::csi_methods_dst(&c1);
+        if dsts != want.all_dst {
+            return Outcome::fail("default-dst", format!("replacement names {:?}, expected {:?} (dst omitted => source name)", dsts, want.all_dst));
+        }
+        let _ = got;
+        Outcome::pass(want.valid && want.prefix.is_none(), classes)
+    }
+}
+
+pub struct C05Prologue;
+
+impl Check for C05Prologue {
+    fn id(&self) -> &'static str {
+        "C05"
+    }
+    fn max_tape(&self) -> usize {
+        400
+    }
+    fn decode(&self, tape: &[u8], _stream: usize) -> Value {
+        crate::props_dynamic::decode_exec_case(tape, crate::props_dynamic::Focus::General)
+    }
+    fn rule(&self) -> String {
+        "the emitted prologue executed in Node in three realms: no _ddiast (every configured replacement name becomes a pass-through and the file runs like the \
+         original), a complete pre-existing _ddiast (same object, no property overwritten), hooks installed after the file was loaded (they are the ones called)"
+            .into()
+    }
+    fn eval(&self, case: &Value, ctx: &mut Ctx) -> Outcome {
+        let (src, cfg, file) = case_parts(case);
+        let out = rw::rewrite_simple(&cfg.json, &src, &file);
+        let content = match &out {
+            rw::Outcome::Ok(v) if v["metrics"]["status"] == json!("modified") => v["content"].as_str().unwrap_or("").to_string(),
+            rw::Outcome::Ok(_) => return Outcome::pass(false, vec![]),
+            _ => return Outcome::skip("rewriter error"),
+        };
+        let req = json!({
+            "cmd": "prologue", "orig": src, "rewritten": content, "dsts": cfg.all_dst, "hookKinds": crate::props_dynamic::hook_kinds(&cfg),
+            "bare": cfg.bare_names(), "entry": case["entry"], "file": file, "seed": case["seeds"][0]
+        });
+        let resp = match node::call(ctx, &req) {
+            Ok(r) => r,
+            Err(e) => return Outcome::inconclusive(format!("node worker: {e}")),
+        };
+        if let Some(e) = resp.get("error") {
+            return Outcome::inconclusive(format!("node worker error: {}", e.as_str().unwrap_or("").chars().take(120).collect::<String>()));
+        }
+        if let Some(p) = resp["problems"].as_array().and_then(|a| a.first()) {
+            return Outcome::fail(p["kind"].as_str().unwrap_or("prologue").to_string(), p.to_string());
+        }
+        Outcome::pass(resp["lateCalls"].as_u64().unwrap_or(0) > 0, vec!["prologue-run".into()])
+    }
+}
